@@ -106,7 +106,7 @@ Section Base.
     && tg (mkcb (new_id v) CPrd (compile_ty vty) :: G) body && same_ty body ty.
   Proof. reflexivity. Qed.
   Lemma tg_call : forall G f args ret, tg G (FCall f args ret) =
-    negb (String.eqb f "main")
+    (negb (String.eqb f "main") || calls_main_prog p)
     && match ffind_def p f, ret with
        | Some d, Some r =>
            tg_args G args (compile_ctx (fdctx d))
